@@ -83,6 +83,30 @@ pub fn run(prop: &'static str, tier: &str, seed: u64) -> i32 {
             }
         }
     }
+    if prop == "C05" {
+        // head lookups while the newest frames of the topic are being removed (explicitly and by head:N eviction)
+        let rounds = if tier == "thorough" { 240u64 } else { 12 };
+        let per = 6u64;
+        let batches: Vec<Vec<serde_json::Value>> = run_cases((rounds / per) as usize, 4, move |b| crate::checks_e2::run_worker("c05race", seed ^ 0xc05, b as u64 * per, per));
+        for batch in batches {
+            for r in batch {
+                rep.eval();
+                if let Some(e) = r.get("worker_error") {
+                    rep.inconclusive(format!("{}", e));
+                    continue;
+                }
+                if r["panics"].as_u64().unwrap_or(0) > 0 || r["harness_panic"] == true {
+                    rep.violation("C05/race/panic-during-round".to_string(), json!({"round": r}));
+                }
+                rep.count("race.head_lookups_during_removals", r["race.head_lookups_during_removals"].as_u64().unwrap_or(0));
+                rep.count("race.removals", r["race.removals"].as_u64().unwrap_or(0));
+                for v in r["violations"].as_array().cloned().unwrap_or_default() {
+                    rep.violation(format!("C05/{}", v["signature"].as_str().unwrap_or("?")), json!({"engine": "E2", "round_seed": r["seed"], "finding": v["detail"]}));
+                }
+            }
+        }
+        rep.require("head lookups raced removals", rep.counters.get("race.head_lookups_during_removals").copied().unwrap_or(0) > 0);
+    }
     if prop == "C07" {
         // the same accept/reject rule with a registration being removed while other threads append into its context
         let rounds = if tier == "thorough" { 480u64 } else { 12 };
